@@ -519,6 +519,7 @@ def run(tier):
         res.instance("C10.R5", "tls13ParseServerHello: HelloRetryRequest (line %s) -> ssl->cipher assigned before it is reported" % ln,
                      path is None, finding=f_)
     rule_R6(res, prog)
+    rule_R7(res, prog)
     return res.finish()
 
 
@@ -606,3 +607,89 @@ def rule_R6(res, prog):
                              file=fn.relfile, line=ln)
             res.instance(rid, "tls13WriteRecordHeader:%s header byte %d = %s" % (ln, pos, arg.get("v") if arg is not None and arg.get("k") == "int" else "?"), ok, finding=f_)
     res.floor(rid, 4)
+
+
+def rule_R7(res, prog):
+    """Order of the inputs that are hashed / fed to the PRF (the peer computes the same value only if the order is the
+    RFC's): (a) RFC 5246 7.4.3 - every arm of computeSkeHash feeds client_random, server_random, ServerKeyExchange params in
+    that order (and all arms agree); (b) RFC 5246 8.1 / 6.3 - the seed that starts with the label `master secret` continues
+    with client_random then server_random, the one that starts with `key expansion` with server_random then
+    client_random."""
+    from sa import cfgutil as cu
+    rid = "C10.R7"
+    res.rule(rid, "hash / PRF input order: SKE hash = client_random, server_random, params; master secret seed = client, server; key expansion seed = server, client")
+
+    def rnd(e):
+        for m in walk(e):
+            if m.get("k") == "mem" and m.get("f") in ("clientRandom", "serverRandom"):
+                return m["f"]
+        return None
+    # (a)
+    fn = prog.fn("computeSkeHash")
+    dom = cu.dominators(fn)
+    sws = [b for b in fn.blocks if (b.get("term") or {}).get("k") == "switch"]
+    if not sws:
+        raise AnalysisBroken("C10.R7: no switch in computeSkeHash")
+    n = 0
+    for sw in sws:
+        for sc in sw["succ"]:
+            if sc.get("case") is None or sc.get("b") is None:
+                continue
+            seq = []
+            for b in fn.blocks:
+                if sc["b"] not in dom[b["id"]]:
+                    continue
+                for i, ln, x in cu.block_exprs(b):
+                    for m in walk(x):
+                        if m.get("k") == "call" and (m.get("fn") or "").endswith("Update") and len(m.get("a", [])) >= 2:
+                            r = rnd(m["a"][1])
+                            seq.append((ln, r or "params"))
+            seq.sort()
+            order = [r for (_, r) in seq]
+            if not order:
+                continue
+            n += 1
+            want = ["clientRandom", "serverRandom", "params"]
+            ok = [o for o in order if o in want][:3] == want and order.count("clientRandom") == order.count("serverRandom")
+            # the MD5+SHA1 arm hashes the triple twice
+            if not ok and len(order) % 3 == 0:
+                ok = all(order[k:k + 3] == want for k in range(0, len(order), 3))
+            f_ = None
+            if not ok:
+                f_ = Finding(PROP, rid, fn.name, "ServerKeyExchange hash input order",
+                             "%s:%s computeSkeHash(), arm for digest length %s: the data hashed is %s; RFC 5246 7.4.3 signs "
+                             "client_random || server_random || params - a conforming peer computes another digest and rejects the "
+                             "signature (self-interoperation hides it because signer and verifier share this function)" % (
+                                 fn.relfile, seq[0][0], sc["case"], order), file=fn.relfile, line=seq[0][0])
+            res.instance(rid, "computeSkeHash: arm %s hashes %s" % (sc["case"], order), ok, finding=f_)
+    # (b)
+    ORDER = {"master secret": ["clientRandom", "serverRandom"], "key expansion": ["serverRandom", "clientRandom"]}
+    CPY = ("memcpy", "__builtin_memcpy", "__builtin___memcpy_chk")
+    for f2 in sorted(prog.functions.values(), key=lambda f: f.qname):
+        if not f2.blocks or not f2.relfile.startswith("matrixssl/"):
+            continue
+        seqs = []
+        for b in f2.blocks:
+            for i, ln, x in cu.block_exprs(b):
+                for m in walk(x):
+                    if m.get("k") == "call" and m.get("fn") in CPY and len(m.get("a", [])) >= 3:
+                        src = strip(m["a"][1])
+                        while src is not None and src.get("k") == "cast":
+                            src = strip(src["e"])
+                        lab = src.get("v") if src is not None and src.get("k") == "str" else None
+                        seqs.append((ln, b["id"], lab, rnd(m["a"][1]), strip(m["a"][0])))
+        seqs.sort(key=lambda t_: t_[0])
+        for k, (ln, bid, lab, r, dst) in enumerate(seqs):
+            if lab not in ORDER:
+                continue
+            nxt = [t_[3] for t_ in seqs[k + 1:k + 3] if t_[1] == bid]
+            n += 1
+            ok = nxt == ORDER[lab]
+            f_ = None
+            if not ok:
+                f_ = Finding(PROP, rid, f2.name, "PRF seed order after `%s`" % lab,
+                             "%s:%s %s(): the seed that starts with the label \"%s\" continues with %s; RFC 5246 requires %s: the "
+                             "derived secret differs from every conforming peer's" % (f2.relfile, ln, f2.name, lab, nxt, ORDER[lab]),
+                             file=f2.relfile, line=ln)
+            res.instance(rid, "%s:%s seed \"%s\" followed by %s" % (f2.name, ln, lab, nxt), ok, finding=f_)
+    res.floor(rid, 5)
